@@ -602,3 +602,33 @@ def errsink(repo):
     res.samples = [f"{res.instances} calls hand their caller's error list on"]
     res.analysed = ["compiler/front_end/*.py"]
     return res
+
+
+def intdigits(repo):
+    """R-INTDIGITS (C16): the IR keeps integers of arbitrary size as decimal strings (`str(n)`, `int(text)`), and CPython
+    3.11+ raises ValueError for such conversions beyond 4300 digits.  A lexically valid Number token (or a range bound
+    like 2**16000) must end in a diagnostic, so a module on the import path of every front-end entry point lifts the limit
+    at import time: a module-level `sys.set_int_max_str_digits(0)` (guarded for older interpreters) in a module that
+    glue.py imports."""
+    res = RuleResult("R-INTDIGITS")
+    glue = repo.mod("compiler/front_end/glue.py")
+    imported = {a.name for n in glue.tree.body if isinstance(n, ast.ImportFrom) and n.module and n.module.startswith("compiler")
+                for a in n.names}
+    found = None
+    for m in repo.modules.values():
+        if not m.rel.startswith("compiler/") or m.rel.split("/")[-1][:-3] not in imported | {"glue"}:
+            continue
+        for n in m.tree.body:
+            for c in ast.walk(n) if not isinstance(n, (ast.FunctionDef, ast.ClassDef)) else []:
+                if isinstance(c, ast.Call) and (call_name(c) or "") == "sys.set_int_max_str_digits" and c.args \
+                        and isinstance(c.args[0], ast.Constant) and c.args[0].value == 0:
+                    found = m.rel
+    res.instances = 1
+    if found is None:
+        res.add("compiler/front_end/glue.py|import-path|int-digit-limit", "no module imported by glue.py lifts CPython's 4300-digit limit on "
+                "int <-> str conversions at import time: a Number token with 4301 digits, or `0 [+2000] UInt x` used in an "
+                "expression, ends in ValueError instead of a diagnostic", "compiler/front_end/glue.py", 1, "import")
+    else:
+        res.samples.append(f"limit lifted in {found}")
+    res.analysed = ["compiler/front_end/glue.py"] + sorted(imported)[:0]
+    return res
